@@ -100,10 +100,15 @@ package channel
 //@ ignorepkg github.com/synnaxlabs/synnax/pkg/storage/ts
 //@ ignorepkg github.com/synnaxlabs/cesium
 
-//@ func (s *Service) deleteOverwritten(ctx context.Context, tx gorp.Tx, channels *[]Channel) (err error)
+//@ # deleteOverwritten removes the overwritten channels from the metadata only (inside the
+//@ # transaction) and hands their storage keys back: the engine, which is not part of the
+//@ # transaction, is touched by the caller, last. What is handed back are the storage keys of exactly
+//@ # the keys whose metadata rows are deleted (asserted at the table delete).
+//@ func (s *Service) deleteOverwritten(ctx context.Context, tx gorp.Tx, channels *[]Channel) (r []ts.ChannelKey, err error)
 //@   pragma abstract NewKey
 //@   requires channels != nil
-//@   atcall DeleteChannels len(chs) == len(keysToDelete) && (forall j int :: 0 <= j && j < len(chs) ==> chs[j] == keysToDelete[j].StorageKey())
+//@   ensures err != nil ==> len(r) == 0
+//@   assert_before "return storageToDelete, nil" len(storageToDelete) == len(keysToDelete) && (forall j int :: 0 <= j && j < len(keysToDelete) ==> storageToDelete[j] == keysToDelete[j].StorageKey())
 //@   # it does not touch the key counter or the length of the batch
 //@   ensures s.leasedCounter == old(s.leasedCounter) && (s.leasedCounter != nil ==> s.leasedCounter.wrap == old(s.leasedCounter.wrap) && (s.leasedCounter.wrap != nil ==> kv.SpecCounterVal[s.leasedCounter.wrap] == old(kv.SpecCounterVal[s.leasedCounter.wrap])))
 //@   ensures len(*channels) == old(len(*channels))
@@ -149,8 +154,12 @@ package channel
 //@   # createdKeys are the storage keys of the batch as it is handed to the engine (taken before the
 //@   # metadata write, which may rewrite the slice it is given) ...
 //@   assert_after "createdKeys := KeysFromChannels(toCreate).Storage()" len(createdKeys) == len(toCreate) && (forall j int :: 0 <= j && j < len(createdKeys) ==> createdKeys[j] == toCreate[j].Key().StorageKey())
-//@   # ... and exactly those are removed again on both failure paths
-//@   atcall DeleteChannels __eq(chs, createdKeys)
+//@   # ... and exactly those are removed again on the three failure paths; the only other engine
+//@   # removal is that of the overwritten channels, and it comes after the metadata write
+//@   atcall DeleteChannels __eq(chs, createdKeys) || __eq(chs, overwritten)
 //@   assert_before "return errors.Combine(err, s.cfg.TSChannel.DeleteChannels(createdKeys))#1" err != nil
 //@   assert_before "return errors.Combine(err, s.cfg.TSChannel.DeleteChannels(createdKeys))#2" err != nil
+//@   assert_before "return errors.Combine(err, s.cfg.TSChannel.DeleteChannels(createdKeys))#3" err != nil
+//@   # the overwritten channels are still in the engine when the batch is handed to it
+//@   assert_before "err = s.cfg.TSChannel.DeleteChannels(overwritten)" err == nil
 //@   modifies *
